@@ -188,7 +188,9 @@ func specWasmDryReport(ext []string, roots []*Node, i int) string {
 //@   requires nn: cfg != nil
 //@   ensures tree [C17]: fresh(result) && result.roots == roots && result.grower != nil && result.spreader != nil && (cfg.encode == encodeDefault ==> isType(result.grower, defaultGrower) && as(result.grower, defaultGrower).lastNodeFormat == cfg.lastNodeFormat && as(result.grower, defaultGrower).intermedialNodeFormat == cfg.intermedialNodeFormat && as(result.grower, defaultGrower).enabledValidation == cfg.dryrun) && (cfg.encode != encodeDefault ==> isType(result.grower, nopGrower)) && (!cfg.dryrun && cfg.encode != encodeJSON ==> isType(result.spreader, defaultSpreader)) && (!cfg.dryrun && cfg.encode == encodeJSON ==> isType(result.spreader, jsonSpreader)) && (cfg.dryrun ==> isType(result.spreader, colorizeSpreader) && wcolorizeOK(as(result.spreader, colorizeSpreader)) && as(result.spreader, colorizeSpreader).fileConsiderer.extensions == cfg.fileExtensions)
 
-// Placeholders (assumed) for the parts of the wasm variant not yet under contract.
+// Placeholder (assumed) for the dry-run spreader of the wasm variant: colorize overwrites Node.name with its
+// colour-wrapped form, which breaks the global sibling-name invariant (wf#sibNames fails at its exit, tried), and the
+// count functions read the names it overwrites; it is not under contract.
 //@ func gtree.colorizeSpreader.spread
 //@   assumed
 //@   modifies out, wfail, counter.n, Node.name
@@ -208,12 +210,18 @@ func specWasmDryReport(ext []string, roots []*Node, i int) string {
 //@   invariant len: jParent != nil && len(jParent.Children) == len(parent.children) && (old(jParent) != nil ==> jParent == old(jParent) && jParent.Name == old(jParent.Name)) && (old(jParent) == nil ==> fresh(jParent) && jParent.Name == parent.name)
 //@   invariant level: forall j int :: {jParent.Children[j]} 0 <= j && j < $i ==> jParent.Children[j] != nil && fresh(jParent.Children[j]) && jParent.Children[j].Name == parent.children[j].name && len(jParent.Children[j].Children) == len(parent.children[j].children)
 //@   invariant frame: (forall x *jsonNode :: {x.Children} !fresh(x) && x != old(jParent) ==> x.Children == old(x.Children)) && (forall x *jsonNode :: {x.Name} !fresh(x) ==> x.Name == old(x.Name))
-// jsonSpreader.spread itself (one encoder, Encode per root) is still assumed: the last conjunct of its loop invariant
-// (arity of the records already encoded, across the whole-field frame of toJSONNode) does not discharge within the budget;
-// the default build's twin, formattedSpreaderSimple.spread[jsonNode], is verified, and toJSONNode above is verified.
+// jsonSpreader.spread: one encoder per call, Encode once per root, in order, with a record that carries the root's name
+// and as many children as the root has; the first encoder error is returned.
 //@ func gtree.jsonSpreader.spread
-//@   assumed
+//@   requires roots: forall k int :: {roots[k]} 0 <= k && k < len(roots) ==> roots[k] != nil
 //@   modifies out, wfail, encTrace, encoders, jsonNode.Children
+//@   ensures once [C17]: encoders == old(encoders) + 1
+//@   ensures trace [C17]: result == nil ==> len(encTrace) == len(old(encTrace)) + len(roots) && (forall k int :: {roots[k]} 0 <= k && k < len(roots) ==> isType(encTrace[len(old(encTrace)) + k], jsonNode) && as(encTrace[len(old(encTrace)) + k], jsonNode).Name == roots[k].name && len(as(encTrace[len(old(encTrace)) + k], jsonNode).Children) == len(roots[k].children)) && wfail == old(wfail)
+//@   ensures fail [C14]: result != nil ==> wfail
+//@ loop gtree.jsonSpreader.spread#1
+//@   invariant sofar: len(encTrace) == len(old(encTrace)) + $i && take(encTrace, len(old(encTrace))) == old(encTrace) && wfail == old(wfail) && encoders == old(encoders) + 1
+//@   invariant each: forall j int :: {encTrace[j]} len(old(encTrace)) <= j && j < len(encTrace) ==> encTrace[j] != nil && allocated(encTrace[j]) && isType(encTrace[j], jsonNode) && as(encTrace[j], jsonNode).Name == roots[j - len(old(encTrace))].name
+//@   invariant arity: forall j int :: {encTrace[j]} len(old(encTrace)) <= j && j < len(encTrace) ==> len(as(encTrace[j], jsonNode).Children) == len(roots[j - len(old(encTrace))].children)
 
 // Output of the wasm variant: the same rendering clause as OutputFromMarkdown of the default build.
 //@ func gtree.Output
